@@ -610,8 +610,8 @@ def run_property(prop: str, tier: str, seed: int, jobs: int = 0, only: Optional[
             'evaluations': total['feas_queries'] + total['oblig_queries'],
             'distinct_nontrivial': total['nontrivial'],
             'rule': ('evaluations = SMT queries discharged (path feasibility + obligations); distinct_nontrivial = distinct '
-                     'feasible decision traces (paths) on which at least one obligation needed the solver (was not closed by '
-                     'term simplification alone)'),
+                     'feasible decision traces (paths) on which the solver did work: at least one branch on a symbolic value was decided '
+                     'by a feasibility query, or at least one obligation was not closed by term simplification alone'),
             'samples': (samples + oblig_samples)[:10] or [{'note': 'no path samples recorded'}],
             'obligations': total['obligations'], 'discharged': total['discharged'],
             'undecided': total['undecided'], 'candidates': total['candidates'],
